@@ -322,8 +322,18 @@ def check_streams_differ(spec):
         ds = W.XTransformWrapper(Zeros(), transform=KDAdditiveUniformNoise(magnitude=1., magnitude_std=0.), seed=spec["seed"])
         vals = [ds.getitem_x(i) for i in range(spec["n"])]
     else:
-        ds = W.KDMultiViewWrapper(Zeros(), configs=[(2, KDAdditiveUniformNoise(magnitude=1., magnitude_std=0.))], seed=spec["seed"])
-        vals = [torch.stack(ds.getitem_x(i)) for i in range(spec["n"])]
+        ds = W.KDMultiViewWrapper(Zeros(), configs=[(2, KDAdditiveUniformNoise(magnitude=1., magnitude_std=0.)),
+                                                    (1, KDAdditiveUniformNoise(magnitude=1., magnitude_std=0.))], seed=spec["seed"])
+        views = [ds.getitem_x(i) for i in range(spec["n"])]
+        # no view of one index repeats a view of another index (view configs must not walk through each other's streams)
+        for i in range(len(views)):
+            for j in range(len(views)):
+                if i != j:
+                    for a, va in enumerate(views[i]):
+                        for b, vb in enumerate(views[j]):
+                            if torch.equal(va, vb):
+                                raise Violation("views-of-different-indices-share-a-stream", f"view {a} of index {i} equals view {b} of index {j} (seed {spec['seed']})")
+        vals = [torch.stack(v) for v in views]
     for i in range(len(vals)):
         for j in range(i + 1, len(vals)):
             if torch.equal(vals[i], vals[j]):
